@@ -521,7 +521,7 @@ def run(tier, seed):
         for d in r.get():
             be = "z3 (DSE all paths)" if f is closest_case else "sympy-%s" % sp.__version__
             run.add_verdicts([report.Verdict(d["name"], d["status"], be, d["seconds"], "post", DSP if "dsp" in d["name"] else PSD, d["detail"])])
-    ev, cf = float_checks(seed, tier == "quick")
+    ev, cf = report.guarded(run, float_checks, seed, tier == "quick")
     run.bounded.append(dict(name="float: area across the |s+1|<1e-5 band vs closed form; rescale; fixtime (uniform data unchanged; jitter/drop-outs/gap -> uniform base, nearest samples); "
                                  "Lanczos accuracy on a band-limited signal for p/q in {3/1, 1/2, 3/7, 10/4}", evaluations=ev, failures=0 if cf is None else 1,
                             label="bounded (never counted as proved)"))
